@@ -567,6 +567,10 @@ class Tr:
             assigns = [a for a in assigns if isinstance(a.value, ast.Call) and ast.unparse(a.value.func) == self.f.arg_of
                        and (a.value.args if self.f.kwarg is None else any(k.arg == self.f.kwarg for k in a.value.keywords))]
         lo, hi = self.f.occ or (0, len(assigns) - 1)
+        if not assigns:
+            raise Unsupported(f"{self.f.func}: no assignment to '{self.f.target}'"
+                              + (f" that is a call of {self.f.arg_of}" + (f"(…, {self.f.kwarg}=…)" if self.f.kwarg else "")
+                                 if self.f.arg_of else ""))
         if hi >= len(assigns):
             raise Unsupported(f"{self.f.func}: only {len(assigns)} assignment(s) to '{self.f.target}'")
         lines = []
@@ -669,6 +673,9 @@ def render(frags: Sequence[Tuple[Frag, str]], src_root: Path) -> Tuple[str, List
             text = translate(frag, src_root, rkind)
         except Unsupported as e:
             skipped[frag.name] = str(e)
+            continue
+        except Exception as e:      # noqa: a construct the translator trips over is "not translated", never a harness error
+            skipped[frag.name] = f"translator error {type(e).__name__}: {e}"
             continue
         out.append(f"/-- generated from {frag.file}:{frag.func} ({frag.mode}"
                    + (f" `{frag.target}`" if frag.target else "") + ") -/")
